@@ -70,3 +70,30 @@ package main
 //@ lemma less_incomparable_transitive(a st.Field, b st.Field, c st.Field)
 //@   requires !lessF(a, b) && !lessF(b, a) && !lessF(b, c) && !lessF(c, b)
 //@   ensures  !lessF(a, c) && !lessF(c, a)
+
+// ---- pad: lay the fields out in the given order ----
+//@ ghost maxAlignF(fs []st.Field, i int) int64 = i <= 0 ? 1 : max(maxAlignF(fs, i-1), fs[i-1].Align)
+// entries 0..k-1 tile [0, End of the last one): they start at 0, each ends where the next
+// starts, and End == Start + Size
+//@ ghost tiles(out []st.Field, k int) bool = forall j int :: {out[j]} 0 <= j && j < k ==> out[j].End == out[j].Start + out[j].Size && out[j].Size >= 0 && out[j].Start == (j == 0 ? 0 : out[j-1].End)
+//@ lemma sum_is_end(out []st.Field, k int)
+//@   requires 0 <= k && k <= len(out) && tiles(out, k)
+//@   ensures  sumsize(out, k) == (k == 0 ? 0 : out[k-1].End)
+//@   induct   k
+//@   trigger  sumsize(out, k)
+
+// The output is a valid layout: it tiles [0, total), every real field starts at a multiple of
+// its alignment, and the total size is a multiple of the largest alignment.
+//@ func pad
+//@   uses     sum_is_end, endof_nonneg
+//@   requires wfFields(fields)
+//@   ensures  [nil]     len(fields) == 0 ==> len(result) == 0
+//@   ensures  [tiles]   tiles(result, len(result))
+//@   ensures  [aligned] forall j int :: {result[j]} 0 <= j && j < len(result) && !result[j].IsPadding ==> result[j].Start % result[j].Align == 0
+//@   ensures  [total]   len(fields) > 0 ==> len(result) > 0 && result[len(result)-1].End % maxAlignF(fields, len(fields)) == 0
+//@   loop 1   invariant [pos]     pos == (len(out) == 0 ? 0 : out[len(out)-1].End) && pos >= 0
+//@   loop 1   invariant [tiles]   tiles(out, len(out)) && len(out) >= i
+//@   loop 1   invariant [aligned] forall j int :: {out[j]} 0 <= j && j < len(out) && !out[j].IsPadding ==> out[j].Start % out[j].Align == 0 && out[j].Align > 0
+//@   loop 1   invariant [max]     alignment == maxAlignF(fields, i) && alignment >= 1
+//@   loop 1   invariant [offs]    len(offsets) == len(fields) && (forall j int :: {offsets[j]} 0 <= j && j < len(fields) ==> offsets[j] == align(endof(fields, j), fields[j].Align))
+//@   loop 1   invariant [end]     pos == endof(fields, i)
